@@ -308,8 +308,10 @@ static rc::Gen<Case> genCase(int tier)
         Case c;
         int nEp = *range<int>(1, 4);
         // alphabet chosen so that same-device/other-stream and same-stream/other-device pairs occur
-        static const std::pair<uint16_t, uint8_t> alphabet[] = {{1, 0}, {1, 5}, {2, 0}, {2, 5}, {0xFFFF, 0xFF}, {0, 0}, {0x0100, 1}, {1, 1}};
-        std::vector<int> idx = {0, 1, 2, 3, 4, 5, 6, 7};
+        static const std::pair<uint16_t, uint8_t> alphabet[] = {{1, 0},      {1, 5},      {2, 0},      {2, 5},      {0xFFFF, 0xFF}, {0, 0},
+                                                                {0x0100, 1}, {1, 1},      {0x0101, 1}, {0x0200, 0}, {0, 2},         {0x0001, 0xFF},
+                                                                {0xFF01, 0}, {0x00FF, 0}, {0xFF00, 0}, {0, 0xFF}};
+        std::vector<int> idx = {0, 1, 2, 3, 4, 5, 6, 7, 8, 9, 10, 11, 12, 13, 14, 15};
         for (int i = 0; i < nEp; ++i)
         {
             int k = *range<int>(0, static_cast<int>(idx.size()) - 1);
